@@ -1626,3 +1626,69 @@ func TestGocvReplay(t *testing.T) {
 	}
 }
 `
+
+// ---------------------------------------------------------------------------
+// driver: dateTimeTimer / recurringTimer (C13) — a timer whose context is already cancelled when the clock reaches its
+// due time: both alternatives of its select are ready, Go picks one at random.  Sixty timers are created, cancelled,
+// and only then overtaken by the (mock) clock; none may fire.
+
+func init() {
+	registerReplay(replayDriver{
+		modelFree: true,
+		name:      "pkg/timer: clock passes the due time of a cancelled timer",
+		match: func(ob *Oblig) bool {
+			return strings.HasPrefix(ob.Func, "pkg/timer.") && strings.Contains(ob.Name, "already-cancelled-never-fires")
+		},
+		build: func(ob *Oblig, m map[string]string) (string, string, bool) {
+			return "pkg/timer", "// generated by gocv for obligation " + ob.Name + "\n" + timerAfterCancelTest, true
+		},
+	})
+}
+
+const timerAfterCancelTest = `package timer
+
+import (
+	"bytes"
+	"context"
+	"encoding/xml"
+	"runtime"
+	"testing"
+	"time"
+
+	"github.com/olive-io/bpmn/schema"
+	"github.com/olive-io/bpmn/v2/pkg/clock"
+)
+
+// A timer whose context was cancelled before the clock reached its due time must never fire.
+func TestGocvReplay(t *testing.T) {
+	defer runtime.GOMAXPROCS(runtime.GOMAXPROCS(1))
+	fired := 0
+	const rounds = 60
+	for i := 0; i < rounds; i++ {
+		c := clock.NewMock()
+		definition := schema.DefaultTimerEventDefinition()
+		duration := schema.AnExpression{}
+		if err := xml.NewDecoder(bytes.NewBufferString(` + "`" + `<bpmn:expression>PT30M</bpmn:expression>` + "`" + `)).Decode(&duration); err != nil {
+			t.Fatal(err)
+		}
+		definition.SetTimeDuration(&duration)
+		ctx, cancel := context.WithCancel(context.Background())
+		ch, err := New(ctx, c, definition)
+		if err != nil {
+			t.Fatal(err)
+		}
+		cancel()                         // cancellation has returned ...
+		c.Add(31 * time.Minute)          // ... before the clock passes the due time
+		select {
+		case _, ok := <-ch:
+			if ok {
+				fired++
+			}
+		case <-time.After(30 * time.Millisecond):
+		}
+	}
+	if fired > 0 {
+		t.Fatalf("%d of %d timers fired although their context had been cancelled before the clock reached the due time", fired, rounds)
+	}
+}
+`
